@@ -346,7 +346,21 @@ impl Component for Conn {
                             next_seq = (next_seq + 1) & 0x7fff_ffff;
                         }
                     }
-                    ops.push(format!("tb {i} {}", now + 15));
+                    // most batches are taken at the next flush tick; some stay queued while other events
+                    // (resets, ACKs, more routing) arrive, and are taken - or dropped by a reset - later
+                    if rng.chance(3, 4) {
+                        ops.push(format!("tb {i} {}", now + 15));
+                    } else if rng.chance(1, 2) {
+                        let kind = *rng.pick(&["recovery", "reconnect", "reg3"]);
+                        ops.push(format!("reset {i} {kind} {}", now + 3));
+                        ops.push(format!("setc {i} c=1 lr={}", now + 3));
+                        // traffic after the reset: the first batch must register exactly what was queued after it
+                        for _ in 0..rng.range(1, 5) {
+                            ops.push(format!("q {i} {next_seq} {}", now + 5));
+                            next_seq = (next_seq + 1) & 0x7fff_ffff;
+                        }
+                        ops.push(format!("tb {i} {}", now + 20));
+                    }
                 }
                 6 => {
                     // re-send of an old number (possibly at/below the ACK mark), maybe on another link
@@ -396,6 +410,10 @@ impl Component for Conn {
                     if rng.chance(2, 3) {
                         ops.push(format!("setc {i} c=1 lr={now}"));
                     }
+                }
+                17 if rng.chance(1, 3) => {
+                    // flush tick on a link (takes whatever an earlier step left queued; often nothing)
+                    ops.push(format!("tb {i} {now}"));
                 }
                 17 => {
                     push_recover(&mut ops, rng, i, now);
@@ -632,12 +650,18 @@ impl Component for Conn {
                     return "bad-op".into();
                 }
                 let batch = self.links[i].take_batch(now);
-                for (_, seq, _) in batch.iter() {
-                    if let Some(s) = seq {
-                        if (*s as i32) <= self.links[i].highest_acked_seq || batch.len() > 1 {
+                for (data, seq, _) in batch.iter() {
+                    // the spec learns a number from the DATAGRAM that leaves (the harness queued the
+                    // big-endian number as the payload), not from the side table take_batch registers from
+                    let wire_seq = if data.len() >= 4 { Some(u32::from_be_bytes([data[0], data[1], data[2], data[3]])) } else { None };
+                    if wire_seq != *seq {
+                        mon.fail("C02", "batch-registers-other-than-sent", format!("take_batch pairs the datagram carrying {wire_seq:?} with sequence slot {seq:?}"));
+                    }
+                    if let Some(s) = wire_seq {
+                        if (s as i32) <= self.links[i].highest_acked_seq || batch.len() > 1 {
                             mon.count("batch-send");
                         }
-                        self.spec[i].insert(*s as i32);
+                        self.spec[i].insert(s as i32);
                     }
                 }
                 if batch.len() > 1 {
